@@ -1,5 +1,5 @@
 import RlboxModel.Invoke
-import RlboxModel.Props.C06
+import RlboxModel.Props.C06Core
 import RlboxModel.Props.C04
 import RlboxModel.Props.C14
 /-!
